@@ -44,6 +44,7 @@ func runC09(e *Env) Outcome {
 	sc := &c09Scenario{Format: f.String(), Cfg: cfgd}
 	var doc []byte
 	var gdoc *gen.Doc
+	var srcValue interface{}
 	type tmpl struct {
 		name string
 		mk   func() interface{}
@@ -72,6 +73,7 @@ func runC09(e *Env) Outcome {
 			return e.Finish(0, nil, sc)
 		}
 		sc.Source = "marshaled value of type " + val.Desc
+		srcValue = val.V
 		templates = append(templates, tmpl{val.Desc, val.New})
 	} else {
 		o := gen.DrawOpts(t)
@@ -139,6 +141,20 @@ func runC09(e *Env) Outcome {
 			// the complete document does not unmarshal into this template: no reference
 			e.Count("reference_unusable", 1)
 			continue
+		}
+		if ti == 1 {
+			// typed template of the marshaled value: the library's own round
+			// trip must be faithful, otherwise its full value is no reference
+			// (a marshal/unmarshal matter that belongs to other properties,
+			// e.g. a map entry with a nil value that the typed builder drops)
+			cmpFull := full
+			if fv := reflect.ValueOf(full); fv.IsValid() && fv.Kind() == reflect.Ptr && !fv.IsNil() && fv.Type().Elem() == reflect.TypeOf(srcValue) {
+				cmpFull = fv.Elem().Interface() // struct and array templates come back as pointers
+			}
+			if ok, _ := eq.Equal(cmpFull, srcValue); !ok {
+				e.Count("reference_unusable_roundtrip_not_faithful", 1)
+				continue
+			}
 		}
 		e.Count("documents_x_templates", 1)
 		var model *mnode
